@@ -17,6 +17,9 @@ FAMILY = [(b"-", b"-xy"), (b"[-,]", b"-,xy"), (b"-|,,", b"-,xy"), (b",,|,", b",x
           (b"ab|a", b"abx"), (b"(-|,)+", b"-,x"), (b"a(b|cc)", b"abcx"), (b"\\|", b"|xy"), ("é|,".encode(), "é,x".encode()),
           # texts that end in `+` without the `+` binding the whole pattern: RE and (RE)+ differ on runs
           (b"ab+", b"abx"), (b"-|,+", b"-,x"), (b"\\+", b"+xy"), (b", +", b", x")]
+# whole matches of the multi-byte members of the family
+MATCH_ATOMS = {b"ab+": [b"ab", b"abb"], b", +": [b", ", b",  "], b"-|,+": [b"-", b",,"], b"ab|a": [b"ab", b"a"], b"a(b|cc)": [b"ab", b"acc"],
+               b"-|,,": [b"-", b",,"], b",,|,": [b",,", b","], b"(-|,)+": [b"-,", b",-"], b"\\+": [b"+"]}
 REPLS = [b"/", b"::", b"", b"$0x", b"-", b",-", b"\\1"]
 
 
@@ -143,6 +146,8 @@ def _run_once(chk):
                  else [c.encode() for c in alpha.decode()])
         if rsel and rng.random() < 0.5:
             atoms = atoms + [rsel, rsel]          # the replacement text itself occurs in the records (next to matches, doubled …)
+        if rx in MATCH_ATOMS and rng.random() < 0.6:
+            atoms = atoms + MATCH_ATOMS[rx] * 2   # whole matches as atoms: runs of ADJACENT matches are what -g / -t / -p look at
         recs = []
         for _ in range(rng.randint(1, 3)):
             rec = b"".join(rng.choice(atoms) for _ in range(rng.randint(0, 8)))
@@ -197,6 +202,8 @@ def _run_once(chk):
     from common import build_tuc, run_cli
     tuc = build_tuc(release=False)
     sample_idx = list(range(0, len(cases), max(1, len(cases) // (3000 if chk.tier == "quick" else 30000))))
+    plus = [k for k, c in enumerate(cases) if (c["re"].endswith("+") or "(" in c["re"]) and (cfgs[k]["g"] or cfgs[k]["t"] or cfgs[k]["p"])]
+    sample_idx = sorted(set(sample_idx) | set(plus[: (3000 if chk.tier == "quick" else 30000)]))
     cli = []
     for k in sample_idx:
         c, cfg = cases[k], cfgs[k]
